@@ -143,3 +143,22 @@ Example ex_hidden_alias :
   HiddenExample.show (complete_model [] HiddenExample.c0 [[112]; dd ++ [97; 108]] 1)
     = [(dd ++ HiddenExample.w_alpha, false); (dd ++ HiddenExample.w_all, false)].
 Proof. vm_compute. split; reflexivity. Qed.
+
+(** * [valid_arg_found]: behind an argument of a command whose arguments conflict with subcommands NO subcommand
+    candidate is offered, in any state (repair of finding C18-args-conflict, second half) *)
+Theorem no_subcommand_candidates_behind_args tbl w c pi st vaf l cd n :
+  (is_set s_args_negate_subs c && vaf) = true ->
+  complete_arg_v tbl w c pi st vaf = COk l -> In cd l -> cd_id cd <> Some (IdCmd n).
+Proof.
+  intros Hng H Hin Hid. rewrite complete_arg_v_cut in H.
+  assert (Hnn : cd_id cd <> None) by (rewrite Hid; discriminate).
+  pose proof (hide_flag_definitional tbl w (sub_cut c vaf) pi st l cd H Hin Hnn) as Hd.
+  assert (Hs : c_subs (sub_cut c vaf) = []) by (unfold sub_cut; rewrite Hng; destruct c; reflexivity).
+  inversion Hd as [a s Ha Hi _ _|a s Ha Hi _ _|a lead s Ha Hi _ _|sc Hsc _ _|sc Hsc _ _]; try congruence;
+    rewrite Hs in Hsc; destruct Hsc.
+Qed.
+
+(** ... and with the flag off (or without the setting) [complete_arg_v] IS [complete_arg] *)
+Theorem complete_arg_v_flag_off tbl w c pi st vaf : (is_set s_args_negate_subs c && vaf) = false ->
+  complete_arg_v tbl w c pi st vaf = complete_arg tbl w c pi st.
+Proof. intros H. rewrite complete_arg_v_cut. unfold sub_cut. rewrite H. reflexivity. Qed.
